@@ -171,6 +171,109 @@ def trip(cfg, seed):
             pass
 
 
+def trip_twice(cfg, seed):
+    """Two files of the same size, other bytes and the same modification time pass through one handler at one path during
+    one operation: every interception records (and every replay restores) the bytes the file had at that moment."""
+    import playback.interception.files.file_interception as fi
+    from playback.interception.files.input_file_interception import InputInterceptionFileDataHandler
+    from playback.interception.files.output_file_interception import OutputInterceptionFileDataHandler
+    from playback.tape_recorder import TapeRecorder, CapturedArg
+    from ..recprops import CASSETTES
+    rnd = random.Random(seed)
+    limit = limit_of(cfg['limitSrc'])
+    n = size_of(cfg['size'], limit)
+    first = content_of(cfg['content'], n, rnd)
+    second = bytes(bytearray(b ^ 0x33 for b in bytearray(first)))
+    contents = {'first': first, 'second': second}
+    above = n > limit
+    tmp = tempfile.mkdtemp(prefix='pbverif-c20-')
+    old_env = os.environ.get('PLAYBACK_INTERCEPTED_FILE_SIZE_LIMIT')
+    res = {'errors': [], 'recorded_placeholder': above, 'read': False, 'restored_at': 'holder' if cfg['role'] == 'output' else 'same',
+           'content': b'', 'restored': b''}
+    fac, refetch = CASSETTES[cfg['cassette']]
+    inner = fac()
+    stamp = 1600000000
+    try:
+        if cfg['limitSrc'] == 'explicit':
+            lim = limit / float(MB)
+        else:
+            os.environ['PLAYBACK_INTERCEPTED_FILE_SIZE_LIMIT'] = {'env': '1', 'envbig': '3'}[cfg['limitSrc']]
+            lim = None
+        path = os.path.join(tmp, 'same-path.bin')
+        tr = TapeRecorder(inner)
+        tr.enable_recording()
+        ih = InputInterceptionFileDataHandler(1, 'dest', lim)
+        oh = OutputInterceptionFileDataHandler(0, 'src', lim)
+        got = []
+
+        def put(p, data):
+            with open(p, 'wb') as f:
+                f.write(data)
+            os.utime(p, (stamp, stamp))
+
+        class Op(object):
+            @tr.operation()
+            def execute(self):
+                for tag in ('first', 'second'):
+                    if cfg['role'] == 'input':
+                        self.download(path, tag)
+                        with open(path, 'rb') as f:
+                            got.append(f.read())
+                    else:
+                        put(path, contents[tag])
+                        self.upload(path)
+                return 'done'
+
+            @tr.intercept_input('download', data_handler=ih, capture_args=[CapturedArg(2, 'tag')])
+            def download(self, dest, tag):
+                put(dest, contents[tag])
+                return dest
+
+            @tr.intercept_output('upload', data_handler=oh)
+            def upload(self, src):
+                return 'stored'
+        import pbverif.opclasses as oc
+        Op.__module__ = oc.__name__
+        Op.__qualname__ = Op.__name__ = 'FileOp2_%d' % (id(Op) % 100000)
+        setattr(oc, Op.__name__, Op)
+        Op().execute()
+        fetcher = refetch(inner) if refetch else inner
+        ids = list(fetcher.iter_recording_ids(Op.__name__))
+        if len(ids) != 1:
+            res['errors'].append('expected one saved recording, found %r' % (ids,))
+            return res
+        del got[:]
+        if os.path.exists(path):
+            os.remove(path)
+        tr.tape_cassette = fetcher
+        pb = tr.play(ids[0], lambda recording: Op().execute())
+        exp = [PLACEHOLDER, PLACEHOLDER] if above else [first, second]
+        if cfg['role'] == 'input':
+            restored = list(got)
+        else:
+            outs = sorted((o for o in pb.recorded_outputs if 'upload' in o.key and o.key.endswith('.output')), key=lambda o: o.key)
+            restored = [oh.restore_output_from_recording(o.value).file_content for o in outs]
+        if restored != exp:
+            res['errors'].append('two same-size files at one path: the %s interception(s) restored other bytes than the file had '
+                                 'when it was intercepted' % [i + 1 for i in range(min(len(exp), len(restored))) if restored[i] != exp[i]]
+                                 if len(restored) == len(exp) else 'two files intercepted, %d restored' % len(restored))
+        return res
+    except Exception:  # noqa
+        import traceback
+        res['errors'].append(traceback.format_exc()[-600:])
+        return res
+    finally:
+        if old_env is None:
+            os.environ.pop('PLAYBACK_INTERCEPTED_FILE_SIZE_LIMIT', None)
+        else:
+            os.environ['PLAYBACK_INTERCEPTED_FILE_SIZE_LIMIT'] = old_env
+        shutil.rmtree(tmp, ignore_errors=True)
+        try:
+            inner.close()
+        except Exception:
+            pass
+
+
 def judge(cfg, st, res):
     """compare one trip with the model's final state; returns list of (what, expected, observed)"""
     bad = []
@@ -208,6 +311,7 @@ def run(rep, tier, seed):
                   LimitSrcs={'explicit', 'env', 'envbig'},
                   Roles={'input', 'output'}, PathBys={'position', 'keyword'},
                   Cassettes={'memory', 'file', 's3'}, ReplayPaths={'same', 'other'},
+                  Twices={False, True},
                   Pres={'absent', 'sameSizeOtherBytes'} if quick else {'absent', 'sameSizeOtherBytes', 'shorter', 'identical'})
     with tlc.Scratch() as s:
         mc.write_mc(s, 'FileHandler', 'MC_C20', consts, invariants=INVS)
@@ -250,6 +354,10 @@ def _one(task):
     import logging
     logging.disable(logging.CRITICAL)
     cfg, st, sd = task
+    if cfg.get('twice'):
+        res = trip_twice(cfg, sd)
+        return [('trip with two files at one path failed', 'each interception keeps its own bytes', res['errors'][0][-400:])] \
+            if res['errors'] else []
     return judge(cfg, st, trip(cfg, sd))
 
 
